@@ -5,6 +5,7 @@ import (
 	"errors"
 	"fmt"
 	"github.com/hneemann/iterator"
+	"github.com/hneemann/parser2"
 	"github.com/hneemann/parser2/funcGen"
 	"github.com/hneemann/parser2/listMap"
 	"math"
@@ -292,6 +293,46 @@ func ToFloat(name string, st funcGen.Stack[Value], n int) (float64, error) {
 	}
 }
 
+// panicToError converts a recovered panic to an error
+func panicToError(rec any) error {
+	return fmt.Errorf("panic: %w", parser2.AnyToError(rec))
+}
+
+// recoverProducer returns a producer which reports a panic of the given producer as an error
+// item. It is used if a producer runs in its own goroutine, where a panic would otherwise
+// terminate the process.
+func recoverProducer(p iterator.Producer[Value]) iterator.Producer[Value] {
+	return func(yield iterator.Consumer[Value]) {
+		defer func() {
+			if rec := recover(); rec != nil {
+				yield(nil, panicToError(rec))
+			}
+		}()
+		p(yield)
+	}
+}
+
+// rethrowConsumerPanic returns a producer which catches a panic of the consumer and raises it
+// again in the goroutine which iterates the producer. It is used if the given producer may call
+// the consumer from another goroutine, where a panic would otherwise terminate the process.
+func rethrowConsumerPanic(p iterator.Producer[Value]) iterator.Producer[Value] {
+	return func(yield iterator.Consumer[Value]) {
+		var consumerPanic any
+		p(func(v Value, err error) (cont bool) {
+			defer func() {
+				if rec := recover(); rec != nil {
+					consumerPanic = rec
+					cont = false
+				}
+			}()
+			return yield(v, err)
+		})
+		if consumerPanic != nil {
+			panic(consumerPanic)
+		}
+	}
+}
+
 func (l *List) Accept(sta funcGen.Stack[Value]) (*List, error) {
 	f, err := ToFunc("accept", sta, 1, 1)
 	if err != nil {
@@ -300,9 +341,16 @@ func (l *List) Accept(sta funcGen.Stack[Value]) (*List, error) {
 	return NewListFromIterable(func(st funcGen.Stack[Value]) iterator.Producer[Value] {
 		// If the filter runs in parallel, the consumer of this list runs concurrently to the
 		// producer of the source list. So they must not share the stack.
-		return iterator.FilterAuto[Value](l.iterable(funcGen.NewEmptyStack[Value]()), func() func(v Value) (bool, error) {
+		return rethrowConsumerPanic(iterator.FilterAuto[Value](l.iterable(funcGen.NewEmptyStack[Value]()), func() func(v Value) (bool, error) {
 			s := funcGen.NewEmptyStack[Value]()
-			return func(v Value) (bool, error) {
+			return func(v Value) (acc bool, err error) {
+				// may run in a worker goroutine
+				defer func() {
+					if rec := recover(); rec != nil {
+						acc = false
+						err = panicToError(rec)
+					}
+				}()
 				eval, err := f.Eval(s, v)
 				if err != nil {
 					return false, err
@@ -312,7 +360,7 @@ func (l *List) Accept(sta funcGen.Stack[Value]) (*List, error) {
 				}
 				return false, fmt.Errorf("function in accept does not return a bool")
 			}
-		})
+		}))
 	}), nil
 }
 
@@ -324,12 +372,19 @@ func (l *List) Map(sta funcGen.Stack[Value]) (*List, error) {
 	return NewListFromSizedIterable(func(st funcGen.Stack[Value]) iterator.Producer[Value] {
 		// If the mapping runs in parallel, the consumer of this list runs concurrently to the
 		// producer of the source list. So they must not share the stack.
-		return iterator.MapAuto[Value, Value](l.iterable(funcGen.NewEmptyStack[Value]()), func() func(i int, v Value) (Value, error) {
+		return rethrowConsumerPanic(iterator.MapAuto[Value, Value](l.iterable(funcGen.NewEmptyStack[Value]()), func() func(i int, v Value) (Value, error) {
 			s := funcGen.NewEmptyStack[Value]()
-			return func(i int, v Value) (Value, error) {
+			return func(i int, v Value) (val Value, err error) {
+				// may run in a worker goroutine
+				defer func() {
+					if rec := recover(); rec != nil {
+						val = nil
+						err = panicToError(rec)
+					}
+				}()
 				return f.Eval(s, v)
 			}
-		})
+		}))
 	}, l.size), nil
 }
 
@@ -405,7 +460,7 @@ func (l *List) Merge(sta funcGen.Stack[Value]) (*List, error) {
 	if otherList, ok := other.ToList(); ok {
 		return NewListFromIterable(func(st funcGen.Stack[Value]) iterator.Producer[Value] {
 			// the two producers run in their own goroutines, so each needs its own stack
-			return iterator.Merge(l.iterable(funcGen.NewEmptyStack[Value]()), otherList.iterable(funcGen.NewEmptyStack[Value]()),
+			return iterator.Merge(recoverProducer(l.iterable(funcGen.NewEmptyStack[Value]())), recoverProducer(otherList.iterable(funcGen.NewEmptyStack[Value]())),
 				func(a, b Value) (bool, error) {
 					st.Push(a)
 					st.Push(b)
@@ -669,6 +724,9 @@ func (l *List) CombineN(sta funcGen.Stack[Value]) (*List, error) {
 		f, err := ToFunc("combineN", sta, 2, 1)
 		if err != nil {
 			return nil, err
+		}
+		if n < 1 {
+			return nil, errors.New("first argument in combineN needs to be greater than zero")
 		}
 		return NewListFromIterable(func(st funcGen.Stack[Value]) iterator.Producer[Value] {
 			return iterator.CombineN[Value, Value](l.iterable(st), int(n), func(i0 int, i []Value) (Value, error) {
